@@ -411,7 +411,12 @@ func C06(ctx *core.Ctx) error {
 	}
 	// a case that made no progress is re-run alone in a fresh child: leaked goroutines of earlier cases, a loaded
 	// machine or a slow start must not be mistaken for a hang of this case
+	confirmed := 0
 	for i := range results {
+		if results[i].Status == "hang" && confirmed >= 4 {
+			results[i].Status = "skipped" // four confirmed hangs already decide the run; every confirmation costs a time-out
+			continue
+		}
 		if results[i].Status == "hang" {
 			again, err := runFaultCases([]FaultCase{cases[i]}, 1, 180*time.Second)
 			if err != nil {
@@ -419,11 +424,17 @@ func C06(ctx *core.Ctx) error {
 			}
 			if again[0].Status != "hang" {
 				ctx.Note("case %s made no progress in the batch but completes on its own (%s): not a hang", cases[i].ID(), again[0].Status)
+			} else {
+				confirmed++
 			}
 			results[i] = again[0]
 		}
 	}
 	for i := range dres {
+		if dres[i].Status == "hang" && confirmed >= 4 {
+			dres[i].Status = "skipped"
+			continue
+		}
 		if dres[i].Status == "hang" {
 			again, err := runDirectCases([]DirectCase{direct[i]}, 1, 120*time.Second)
 			if err != nil {
@@ -431,6 +442,8 @@ func C06(ctx *core.Ctx) error {
 			}
 			if again[0].Status != "hang" {
 				ctx.Note("direct case %s made no progress in the batch but completes on its own (%s): not a hang", direct[i].ID(), again[0].Status)
+			} else {
+				confirmed++
 			}
 			dres[i] = again[0]
 		}
@@ -438,6 +451,10 @@ func C06(ctx *core.Ctx) error {
 	applied := 0
 	for i, r := range results {
 		fc := cases[i]
+		if r.Status == "skipped" {
+			cov.Add("cases_skipped_after_failures", 1)
+			continue
+		}
 		var panics []string
 		if r.Status == "ok" {
 			var o FaultOutcome
@@ -465,6 +482,10 @@ func C06(ctx *core.Ctx) error {
 	}
 	for i, r := range dres {
 		dc := direct[i]
+		if r.Status == "skipped" {
+			cov.Add("cases_skipped_after_failures", 1)
+			continue
+		}
 		cov.Case("direct|"+dc.ID(), true)
 		if r.Status == "harness-error" {
 			return core.Inconcl("direct case %s: %s", dc.ID(), r.Detail)
